@@ -92,6 +92,27 @@ pub mod schema;
 pub mod sql;
 pub mod storage;
 pub mod types;
+
+/// Verification hooks (H2): re-exports of private pure functions for the external
+/// verification harness. Compiled only with `--cfg kahflane_turdb_verif`; additive.
+#[cfg(kahflane_turdb_verif)]
+pub mod verif_api {
+    /// Calendar converters (property C41).
+    pub mod calendar {
+        /// `parsing::literal::date_to_days_since_epoch` (days since 1970-01-01).
+        pub fn literal_date_to_days_since_epoch(year: i32, month: u32, day: u32) -> i32 {
+            crate::parsing::verif_date_to_days_since_epoch(year, month, day)
+        }
+        /// `constraints::ConstraintValidator::days_from_ymd` (days since 1970-01-01).
+        pub fn constraints_days_from_ymd(year: i32, month: u32, day: u32) -> i32 {
+            crate::constraints::ConstraintValidator::verif_days_from_ymd(year, month, day)
+        }
+        pub use crate::sql::functions::datetime::verif::{
+            date_to_days, day_of_week, day_of_year, days_in_month, days_to_date,
+        };
+    }
+}
+
 pub use btree::{
     get_fastpath_fail_stats, get_fastpath_stats, get_slowpath_stats, reset_fastpath_stats,
 };
